@@ -347,16 +347,27 @@ func vDialErr(class, k int, what string) error {
 		return fmt.Errorf("interface %q is not up: %w", tag, ErrLinkNotReady)
 	case vdSyscall:
 		e := &os.SyscallError{Syscall: tag, Err: syscall.EINVAL}
-		if k%2 == 1 {
+		switch k % 4 {
+		case 1:
 			return fmt.Errorf("failed to listen: %w", e)
+		case 2:
+			// a failing open(2)/read(2) of the interface's sysctl files (the interface was
+			// removed): package os reports it as *fs.PathError, not *os.SyscallError — a
+			// non-permission system-call error all the same (finding F-30)
+			return fmt.Errorf("failed to get IPv6 forwarding state: %w",
+				&fs.PathError{Op: "open", Path: "/proc/sys/net/ipv6/conf/" + tag + "/forwarding", Err: syscall.ENOENT})
+		case 3:
+			return &fs.PathError{Op: "read", Path: tag, Err: syscall.EIO}
 		}
 		return e
 	case vdPermission:
-		switch k % 3 {
+		switch k % 4 {
 		case 0:
 			return &os.SyscallError{Syscall: tag, Err: os.ErrPermission}
 		case 1:
 			return &os.SyscallError{Syscall: tag, Err: syscall.EPERM}
+		case 2:
+			return &fs.PathError{Op: "open", Path: tag, Err: syscall.EACCES}
 		default:
 			return fmt.Errorf("failed to listen: %w", &os.SyscallError{Syscall: tag, Err: syscall.EACCES})
 		}
@@ -365,8 +376,8 @@ func vDialErr(class, k int, what string) error {
 		case 0:
 			return errors.New(tag + " other")
 		case 1:
-			// a permission error that is not a system-call error is not special to init
-			return &fs.PathError{Op: "open", Path: tag, Err: syscall.EPERM}
+			// a system-call error flattened into text is not one any more
+			return fmt.Errorf("%s: %v", tag, &fs.PathError{Op: "open", Path: tag, Err: syscall.ENOENT})
 		default:
 			return fmt.Errorf("%s: %v", tag, &os.SyscallError{Syscall: "socket", Err: syscall.EINVAL})
 		}
@@ -396,12 +407,15 @@ func vTaskErr(class, k int) error {
 
 // vClass is the class of an error returned by DialFunc.
 func vClass(err error) int64 {
-	var serr *os.SyscallError
+	var (
+		serr *os.SyscallError
+		perr *fs.PathError
+	)
 	switch {
 	case err == nil:
 		return vdOK
-	case errors.As(err, &serr):
-		if errors.Is(serr, os.ErrPermission) {
+	case errors.As(err, &serr), errors.As(err, &perr):
+		if errors.Is(err, os.ErrPermission) {
 			return vdPermission
 		}
 		return vdSyscall
